@@ -49,7 +49,7 @@ def setup(mode="jit"):
     cdir = os.path.join(cache_root, sha[:20] + ("" if mode == "jit" else "-" + mode))
     os.makedirs(cdir, exist_ok=True)
     os.utime(cdir, None)
-    _prune(cache_root, keep=6)
+    _prune(cache_root, keep=24)
     os.environ["NUMBA_CACHE_DIR"] = cdir
     os.environ[GUARD] = "1"
     for v in ("NUMBA_NUM_THREADS", "OMP_NUM_THREADS", "OPENBLAS_NUM_THREADS", "MKL_NUM_THREADS"):
